@@ -110,6 +110,10 @@ fn run_reassembly(r: &Reassembly) -> CaseResult {
     // --- genuine fragmenter: an honest transfer over an ideal link, observed on the wire ---------
     let mut subs: Vec<Sub> = Vec::new();
     let mut sends: Vec<SendSpec> = Vec::new();
+    // packets of 1..3 bytes cannot carry a unique identity; the skip rule below needs one, so they
+    // are given 4 more bytes here (sizes 0..3 are covered by C01 / C05)
+    let packets: Vec<SendSpec> = r.packets.iter().map(|p| SendSpec { ch: p.ch, mode: p.mode, size: if (1..4).contains(&p.size) { p.size + 4 } else { p.size } }).collect();
+    let r = &Reassembly { packets, ..r.clone() };
     for (i, p) in r.packets.iter().enumerate() {
         let (ch, mode) = if p.size == 0 { (0u8, 3u8) } else { (p.ch % 64, p.mode % 4) };
         subs.push(Sub { seq: 0, idx: i as u32, tick: 0, epoch: 0, t_us: 0, ch, mode, size: p.size });
@@ -216,6 +220,12 @@ fn run_reassembly(r: &Reassembly) -> CaseResult {
                 if !first_seen.contains(&src.sequence_id) {
                     continue;
                 }
+                // Only multi-fragment packets are in assembly long enough for "the first fragment seen" to
+                // mean anything; a single-fragment datagram that the receiver skipped leaves no trace, and a
+                // forged single-fragment datagram with the same id is then simply a packet of its own.
+                if src.fragment_id_last == 0 {
+                    continue;
+                }
                 let mut d = src.clone();
                 match f.kind {
                     0 => d.fragment_id_last = d.fragment_id_last.wrapping_add(1),
@@ -229,6 +239,10 @@ fn run_reassembly(r: &Reassembly) -> CaseResult {
                     _ => {
                         d.fragment_id_last = if d.fragment_id_last == 0 { 3 } else { d.fragment_id };
                     }
+                }
+                // keep the forged datagram multi-fragment, so that it can never complete on its own
+                if d.fragment_id_last == 0 {
+                    d.fragment_id_last = src.fragment_id_last.wrapping_add(2).max(1);
                 }
                 if d.fragment_id > d.fragment_id_last {
                     d.fragment_id = d.fragment_id_last;
